@@ -464,6 +464,12 @@ T('C07', 'twin-columns-truthiness-filter', QC,
   "        return [t for t in self.c_targets if t.name is not None]", "        return [t for t in self.c_targets if t.name]")
 
 # ---------------------------------------------------------------------- C08
+M('C08', 'star-columns-sorted-by-name', 'beanquery/tables.py',
+  "        return self.columns.keys()", "        return sorted(self.columns.keys())", ('R-SUBQNAMES', 'SubqueryTable'))
+M('C08', 'outer-order-resets-inner-limit', CO,
+  "        new_targets, order_spec = self._compile_order_by(node.order_by, c_targets)\n        c_targets.extend(new_targets)\n",
+  "        new_targets, order_spec = self._compile_order_by(node.order_by, c_targets)\n        c_targets.extend(new_targets)\n        if isinstance(self.table, SubqueryTable) and order_spec:\n            self.table.subquery.limit = None\n",
+  ('R-QUERYFROZEN', '_compile_select'))
 R('C08', 'regress-D14-nested-select-table', '052c1c9-a-subquery-with-a-FROM-clause-no-longer-changes-th.diff',
   ('R-REENTRANT', 'Compiler.table'))
 R('C08', 'regress-D3-subquery-equality', '8eceace-IN-subquery-nodes-compare-by-their-subquery.diff',
